@@ -28,6 +28,21 @@ PLAN = {
         quick=[rapid("prop", "TestProp", 20000), enum("matrix", "TestEnum")],
         thorough=[rapid("prop", "TestProp", 100000, shards=16), enum("matrix", "TestEnum"), fuzz("fuzz", "FuzzC01", 40)],
     ),
+    "C02": dict(
+        pkg="c02",
+        rule=("model-based stateful testing: rapid-generated build histories of 1..25 (thorough 40) operations over AddHeaders (repeated, any position), AddRowItems, NewRow/NewRowWithCapacity/NewRowSizedFor, "
+              "Row.Add before and after attach and on separators, AddRow of pending rows, AddRow of a zero-value row, AddSeparator, AppendNewRow; 0..5 cells usually, heavy tail to 24 so tables cross the 10/20 column capacities; "
+              "tables created through core and wrapper constructors. After EVERY step the whole observable state (NRows, AllRows identity/order, NColumns, CellAt over [-1,NRows+1]x[-1,NColumns+2] incl. text, item identity, "
+              "location and cell identity via a marker property, Row.Location/IsSeparator/Cells, pending rows, Column(n) for n in [-2,NColumns+2], Headers, mutation of the AllRows copy) is compared with a reference model. "
+              "Plus exhaustive enumeration of every history up to 4 (thorough 6) operations over an 11-operation alphabet. "
+              "Non-trivial: the history has a Row.Add on an attached row, headers after rows, a zero-cell row/header, a separator, or ragged rows. Distinct: op-kind/arity/ref sequence."),
+        level_text=("Model-based (stateful) property testing with a lock-step reference model and a full observation sweep after every step; bounded exhaustive enumeration of short histories. "
+                    "Exploration level: histories are unbounded; complete only within the enumerated bound."),
+        level_note="Trusts the reference model in internal/gen/script.go (counts, order, per-row cell lists). When AddHeaders replaced a longer header by a shorter one NColumns may lie anywhere between the current and the historical maximum (the statement is ambiguous there).",
+        technique="model-based stateful property testing (rapid) + bounded exhaustive enumeration of build histories",
+        quick=[rapid("prop", "TestProp", 5000), enum("enum", "TestEnum", shards=11, env={"VERIF_C02_ENUM_LEN": 5})],
+        thorough=[rapid("prop", "TestProp", 40000, shards=16), enum("enum", "TestEnum", shards=11, env={"VERIF_C02_ENUM_LEN": 6})],
+    ),
     "C05": dict(
         pkg="c05",
         rule=("rapid-generated build histories (AddHeaders/AddRowItems/NewRow*/Row.Add before and after attach/AddRow/AddSeparator/AppendNewRow) "
